@@ -236,6 +236,23 @@ func c05MCQ(cs c05Case) []c05Fail {
 		return fs
 	}
 	simcluster.WrapDMap("", dm).Put("k", []byte("v"), simcluster.PutOpt{})
+	// established connections: one per command, opened while the cluster is healthy, each has already
+	// served a read and a write (the pooled connection of a client or of another member)
+	established := map[string]*simnet.SrvConn{}
+	for _, name := range x.DB.VerifServer().VerifCommands() {
+		conn := simnet.NewSrvConn("raw:mcq-established")
+		for _, warm := range [][]string{{"dm.get", "d", "k"}, {"dm.put", "d", "k", "v"}} {
+			var args [][]byte
+			for _, a := range warm {
+				args = append(args, []byte(a))
+			}
+			x.DB.VerifServe(conn, redcon.Command{Args: args})
+			if r := string(conn.Bytes()); strings.HasPrefix(r, "-") {
+				add("setup", "healthy cluster: %v answered %q", warm, r)
+			}
+		}
+		established[name] = conn
+	}
 	for i := 0; i < cs.Gone; i++ {
 		v := cl.Members[2-i]
 		cl.Crash(v)
@@ -255,22 +272,27 @@ func c05MCQ(cs c05Case) []c05Fail {
 			args = append(args, []byte(f))
 		}
 		args = append(args, []byte("d"), []byte("k"), []byte("1"))
-		conn := simnet.NewSrvConn("raw:mcq")
-		func() {
-			defer func() {
-				if p := recover(); p != nil {
-					add("mcq/panic/cmd="+name, "command %s panicked: %v", name, p)
-				}
+		for _, how := range []string{"", "/established-connection"} {
+			conn := simnet.NewSrvConn("raw:mcq")
+			if how != "" {
+				conn = established[name]
+			}
+			func() {
+				defer func() {
+					if p := recover(); p != nil {
+						add("mcq/panic/cmd="+name+how, "command %s panicked: %v", name, p)
+					}
+				}()
+				x.DB.VerifServe(conn, redcon.Command{Args: args})
 			}()
-			x.DB.VerifServe(conn, redcon.Command{Args: args})
-		}()
-		reply := string(conn.Bytes())
-		isQuorumErr := strings.Contains(reply, "quorum")
-		if below && !isQuorumErr {
-			add("mcq/command-served-below-quorum/cmd="+name, "member sees %d members (MemberCountQuorum=%d) but %s answered %q", visible, cs.MCQ, name, strings.TrimSpace(reply))
-		}
-		if !below && isQuorumErr {
-			add("mcq/quorum-error-with-quorum-met/cmd="+name, "member sees %d members (MemberCountQuorum=%d) but %s answered %q", visible, cs.MCQ, name, strings.TrimSpace(reply))
+			reply := string(conn.Bytes())
+			isQuorumErr := strings.Contains(reply, "quorum")
+			if below && !isQuorumErr {
+				add("mcq/command-served-below-quorum/cmd="+name+how, "member sees %d members (MemberCountQuorum=%d) but %s answered %q", visible, cs.MCQ, name, strings.TrimSpace(reply))
+			}
+			if !below && isQuorumErr {
+				add("mcq/quorum-error-with-quorum-met/cmd="+name+how, "member sees %d members (MemberCountQuorum=%d) but %s answered %q", visible, cs.MCQ, name, strings.TrimSpace(reply))
+			}
 		}
 	}
 	if below {
